@@ -953,6 +953,38 @@ theorem finish_clean (p1 : P1 F) (p2 : P2 F) (tail : List Byte) (htail : TailOK 
 /-- `END-ISO-10303-21` -/
 def endIso : List Byte := [69, 78, 68, 45, 73, 83, 79, 45, 49, 48, 51, 48, 51, 45, 50, 49]
 
+/-- characters `GetKeyword` accepts inside a keyword -/
+def kwOk (c : Byte) : Bool := (isUpper c || isDigit c || c == 95 || c == 45) && !(isSpace c || c == 59 || c == 0)
+
+theorem getKeyword_step (n : Nat) (c : Byte) (l : List Byte) (x : Byte) (r : List Byte) (sk : Bool) (hc : kwOk c = true) :
+    getKeyword (n + 1) false c (G (c :: l) (x :: r) sk) false = getKeyword n false x (G (x :: c :: l) r sk) false := by
+  simp only [kwOk, Bool.and_eq_true, Bool.not_eq_true'] at hc
+  rw [getKeyword]
+  simp only [Bool.false_eq_true, if_false, hc.2, hc.1, Bool.true_or, Bool.not_true, G_good, getInto_good]
+
+theorem getKeyword_stop (n : Nat) (c : Byte) (l r : List Byte) (sk : Bool) :
+    getKeyword (n + 1) false 59 (G (59 :: c :: l) r sk) false = (false, G (c :: l) (59 :: r) sk) := by
+  rw [getKeyword]
+  have e59 : (isSpace (59 : Byte) || (59 : Byte) == 59 || (59 : Byte) == 0) = true := by decide
+  simp only [Bool.false_eq_true, if_false, e59, if_true, putback_good]
+
+theorem getKeyword_word (w : List Byte) (hw : w.all kwOk = true) (r : List Byte) (sk : Bool) :
+    ∀ (n : Nat) (c : Byte) (l : List Byte), kwOk c = true →
+      getKeyword (n + 1 + w.length + 1) false c (G (c :: l) (w ++ 59 :: r) sk) false =
+        (false, G (w.reverse ++ c :: l) (59 :: r) sk) := by
+  induction w with
+  | nil =>
+    intro n c l hc
+    simp only [List.length_nil, Nat.add_zero, List.nil_append, List.reverse_nil]
+    rw [getKeyword_step (n + 1) c l 59 r sk hc, getKeyword_stop]
+  | cons x t ih =>
+    intro n c l hc
+    have hx : kwOk x = true := by simp at hw; exact hw.1
+    have ht : t.all kwOk = true := by simp at hw ⊢; exact hw.2
+    have e : n + 1 + (x :: t).length + 1 = (n + 1 + t.length + 1) + 1 := by simp only [List.length_cons]; omega
+    rw [e, List.cons_append, getKeyword_step _ c l x _ sk hc, ih ht n x (c :: l) hx]
+    simp
+
 theorem tailOK_endIso (gE : List Byte) (hgE : Seps gE) (after : List Byte) : TailOK (gE ++ (endIso ++ 59 :: after)) := by
   intro l sk
   have e1 : readTokenSeparator (G l (gE ++ (endIso ++ 59 :: after)) sk) = G (gE.reverse ++ l) (endIso ++ 59 :: after) sk :=
@@ -961,10 +993,24 @@ theorem tailOK_endIso (gE : List Byte) (hgE : Seps gE) (after : List Byte) : Tai
     readTokenSeparator_none _ 69 _ sk (by decide) (by decide)
   rw [e1, e2]
   refine ⟨rfl, ?_⟩
-  have e3 : (G (gE.reverse ++ l) (endIso ++ 59 :: after) sk).right.length + 3 = (after.length + 3) + 17 := by
-    simp [endIso]
+  have e3 : (G (gE.reverse ++ l) (endIso ++ 59 :: after) sk).right.length + 3 = ((after.length + 3) + 1 + 14 + 1) + 1 := by
+    simp only [endIso, List.length_append, List.length_cons, List.length_nil]; omega
   rw [e3]
-  simp [endIso, getKeyword, getInto_good, putback_good, G_good, isSpace, isUpper, isDigit]
+  have hk := getKeyword_word [68, 45, 73, 83, 79, 45, 49, 48, 51, 48, 51, 45, 50, 49] (by decide) after sk
+    (after.length + 3) 78 (69 :: (gE.reverse ++ l)) (by decide)
+  have hstep : getKeyword (((after.length + 3) + 1 + 14 + 1) + 1) true 0 (G (gE.reverse ++ l) (endIso ++ 59 :: after) sk) false =
+      getKeyword ((after.length + 3) + 1 + 14 + 1) false 78
+        (G (78 :: 69 :: (gE.reverse ++ l)) ([68, 45, 73, 83, 79, 45, 49, 48, 51, 48, 51, 45, 50, 49] ++ 59 :: after) sk) false := by
+    have e69 : (isSpace (69 : Byte) || (69 : Byte) == 59 || (69 : Byte) == 0) = false := by decide
+    have u69 : (isUpper (69 : Byte)) = true := by decide
+    rw [getKeyword]
+    simp only [endIso, List.cons_append, if_true, getInto_good, e69, Bool.false_eq_true, if_false, u69,
+      Bool.true_or, Bool.not_true, G_good, List.nil_append]
+  rw [hstep]
+  have hk' : getKeyword ((after.length + 3) + 1 + 14 + 1) false 78
+      (G (78 :: 69 :: (gE.reverse ++ l)) ([68, 45, 73, 83, 79, 45, 49, 48, 51, 48, 51, 45, 50, 49] ++ 59 :: after) sk) false = _ := hk
+  rw [hk']
+  simp [getInto_good, G_good]
 
 theorem readDataSection_recs (ops : FloatOps F) (lex : LexCfg) (cfg : RWCfg) (hcfg : cfg.skipInstanceSkipsComments = true)
     (d : Dict) (strict : Bool) (sp tail : List Byte) (hsp : sp.all isSpace = true) (htail : TailOK tail)
